@@ -48,7 +48,10 @@ def gen_beh(rng: random.Random, outs: List[str], durs: Optional[List[List[Any]]]
     out = rng.choice(outs)
     if out == "raise":
         out = "raise:" + rng.choice(EXCS if allow_genexit else [e for e in EXCS if e != "GeneratorExit"])
-    return {"dur": list(rng.choice(durs or DURS)), "out": out, "value": rng.choice(VALUES)}
+    beh: Dict[str, Any] = {"dur": list(rng.choice(durs or DURS)), "out": out, "value": rng.choice(VALUES)}
+    if out == "noresult" and rng.random() < 0.4:
+        beh["noresult_sub"] = True  # signalled with a subclass of NoResultError
+    return beh
 
 
 def gen_cfg(rng: random.Random, allow_none_A: bool = True, n_ok: bool = True) -> Dict[str, Any]:
@@ -94,6 +97,8 @@ def base_result(rr: RunResult, cr: CaseResult) -> None:
         cr.events[e["k"]] += 1
     cr.counters["scenario_runs"] += 1
     cr.counters["outcome_" + rr.outcome] += 1
+    if rr.outcome == "loop-killed":
+        cr.violations.append(Violation("worker-loop-killed", f"an exception raised by a task function escaped into the event loop and stopped the worker: {rr.err}"))
     if rr.outcome in ("budget", "watchdog"):
         raise RuntimeError(f"harness could not finish the scenario: {rr.outcome} {rr.err}")
 
@@ -733,14 +738,31 @@ def gen_c04_spec(rng: random.Random, A: int, P: int) -> Dict[str, Any]:
             msgs[-1]["beh"]["dur"] = [rng.choice([1.0, "never"])]
             if rng.random() < 0.5:
                 msgs[-1]["beh"]["cleanup"] = rng.choice([["y"], [0.3]])
+    if rng.random() < 0.2:
+        # junk on a shared queue: unparseable messages / messages for unknown tasks reach the worker before the backlog
+        k = rng.randint(1, 6)
+        junk = [{"at": 0.0, "kind": rng.choice(["malformed", "unknown"]), "variant": rng.randint(0, 12), "task": "t_async", "ackable": False,
+                 "beh": {"dur": [], "out": "ok"}} for _ in range(k)]
+        for m in msgs:
+            m["at"] = round(m["at"] + 0.5, 6)
+        msgs = junk + msgs
     spec: Dict[str, Any] = {"cfg": {"A": A, "P": P, "ack": "when_saved", "threads": 32}, "msgs": msgs,
                             "backend": {"lat": rng.choice([0, 0.05, 0.2])}}
+    if not sync_tasks and rng.random() < 0.15:
+        # task functions with yield-style dependencies whose teardown takes time: the message is being processed
+        # until they are closed
+        spec["deps"] = {"dA": {"style": "agen", "td_lat": rng.choice([0.3, 1.0]), "subs": []},
+                        "dB": {"style": rng.choice(["gen", "acm"]), "td_lat": 0.2, "subs": []}}
+        spec["tasks"] = {"t_deps": {"fn": "async", "deps": ["dA", "dB"]}}
+        for m in msgs:
+            if m.get("kind", "valid") == "valid" and m["task"] == "t_async":
+                m["task"] = "t_deps"
     if rng.random() < 0.25:
         # hostile extra: some messages hit a raising hook or a failing backend (the bound must survive that)
-        toks = [f"m{i}" for i in range(n) if rng.random() < 0.3]
+        toks = [f"m{i}" for i in range(len(msgs)) if rng.random() < 0.3]
         h = rng.choice(["pre_execute", "post_execute", "post_save"])
         spec["mws"] = [{h: {"async": rng.random() < 0.5, "raise": toks}}]
-        spec["backend"]["fail"] = [f"m{i}" for i in range(n) if rng.random() < 0.1]
+        spec["backend"]["fail"] = [f"m{i}" for i in range(len(msgs)) if rng.random() < 0.1]
     if rng.random() < 0.1 and "stop_at" not in spec:
         spec["via"] = "api"
     if rng.random() < 0.3:
@@ -835,6 +857,13 @@ def gen_c05_spec(rng: random.Random, maxn: int = 16) -> Dict[str, Any]:
         if beh.get("cleanup"):
             m["timeout"] = rng.choice([0.05, 0.2])
         msgs.append(m)
+    if rng.random() < 0.12:
+        # an at-least-once broker re-delivers a message (same bytes) while its first delivery is still running
+        cands = [i for i, m in enumerate(msgs) if m["kind"] == "valid" and (O._dur_total(m["beh"]) or 0) >= 0.5 and not m.get("ack_raise")]
+        if cands:
+            i = rng.choice(cands)
+            msgs.append({"dup_of": i, "at": round(msgs[i]["at"] + rng.choice([0.01, 0.1, 0.3]), 6), "kind": "valid", "task": "t_async",
+                         "ackable": msgs[i]["ackable"], "beh": msgs[i]["beh"]})
     spec: Dict[str, Any] = {"cfg": cfg, "msgs": msgs, "backend": {"lat": rng.choice([0, 0, 0.05, 0.4])}}
     if rng.random() < 0.15:
         # hostile extra: processing of some messages fails outside the task function (raising hook)
@@ -1032,6 +1061,10 @@ class C06(WorkerCheck):
         v, checked = O.oracle_c06(rr, spec)
         cr.violations += v
         cr.counters["echoes_checked"] += checked
+        if spec.get("via") != "inmemory":
+            # "the result stored under a task id is the one produced by executing the message that carried that id":
+            # every delivery is executed, once (no execution stands in for another message)
+            cr.violations += [x for x in O.oracle_c01(rr, spec) if x.kind in ("message-dropped", "executed-twice", "phantom-execution")]
         for e in rr.trace:
             if e["k"] == "foreign_result_visible":
                 cr.violations.append(Violation("result-visible-through-another-broker", f"the result stored for {e['tok']} is reported ready by the result backend of another, idle InMemoryBroker of the process"))
@@ -1219,7 +1252,8 @@ def gen_c10_spec(rng: random.Random) -> Dict[str, Any]:
         if rng.random() < 0.2:
             fail_backend.append(tok)
     kick_fail = sorted(rng.sample(range(n), rng.choice([0, 0, 1, min(2, n)])))
-    spec: Dict[str, Any] = {"cfg": {"A": rng.choice([1, 2, 4, None]), "P": rng.choice([0, 1])},
+    spec: Dict[str, Any] = {"cfg": {"A": rng.choice([1, 2, 4, None]), "P": rng.choice([0, 1]), "propagate": rng.random() < 0.7},
+                            "mw_reg": rng.choice(["add", "add", "with", "split_with", "add_then_with"]),
                             "mws": mws, "client_sends": sends, "loopback": True, "kick_fail": kick_fail,
                             "kick_exc": [rng.choice(["BackendDown", "ConnectionError", "BrokerError", "ResultSetError",
                                                      "TaskiqResultTimeoutError", "UnknownTaskError", "TaskiqError"])
@@ -1313,6 +1347,11 @@ def gen_c12_spec(rng: random.Random, depth: int) -> Dict[str, Any]:
             m["timeout"] = 0.1
             if rng.random() < 0.5:
                 beh["cleanup"] = rng.choice([["y"], [0.05], [0.2]])
+        elif rng.random() < 0.08:
+            # a timeout label that is not a number: the execution fails after the dependencies were opened and
+            # before the function is started; the function must not run later, against closed dependencies
+            m["timeout_raw"] = rng.choice(["10s", "", "1,5"])
+            beh["dur"] = [rng.choice([0.05, 0.3])]
         msgs.append(m)
     if fn != "sync" and rng.random() < 0.25:
         add_same_id_messages(rng, msgs, 0.5)  # re-deliveries: concurrent executions that share a task id
